@@ -87,7 +87,7 @@ pub fn gen_states<P: PType, S: Side<P>>(uni: &Universe, rep_mode: u8, alpha: Alp
             let mut roots: Vec<GK> = vec![];
             let mut edge_seen: Vec<GK> = vec![];
             for &q in &uni.queries {
-                let Some(top) = top_node_under(&st.walk, q) else { continue };
+                let Some(top) = top_node_under(st.walk(), q) else { continue };
                 if top == q {
                     roots.push(q);
                 } else if all_roots || !edge_seen.contains(&top) {
